@@ -38,6 +38,7 @@ def run(tier, seed, t0):
     else:
         jobs.append(j("cmp-small-spqlios-fma", "optim", "spqlios-fma", ["--seed", seed, "--threads", "1,2,4,8,16,32", "--rounds", 2], weight=8))
         jobs.append(j("cmp-small-nayuki-avx", "optim", "nayuki-avx", ["--seed", seed, "--threads", "1,4,16", "--rounds", 2], weight=8))
+        jobs.append(j("cmp-small-nayuki-portable", "optim", "nayuki-portable", ["--seed", seed + 1, "--threads", "3,8", "--rounds", 2, "--keygen", 0], weight=8))
         jobs.append(j("cmp-small-fftw", "optim", "fftw", ["--seed", seed, "--threads", "2,8,16", "--rounds", 2], weight=8))
         jobs.append(j("cmp-default128-spqlios-fma", "optim", "spqlios-fma", ["--seed", seed, "--lambda", 128, "--threads", "8", "--rounds", 1, "--slowjobs", 0], weight=8))
         for be in vbuild.BACKENDS:
